@@ -9,7 +9,7 @@
    DESIGN §3; until then the unboundedness of this property rests on the correspondence). *)
 From stdpp Require Import gmap.
 From Coq Require Import NArith.
-From BV Require Import Base Heap HeapLaws HeapWF HeapWFOps HeapWFMain.
+From BV Require Import Base Heap HeapLaws HeapWF HeapWFOps HeapWFMain ConstsTie.
 Local Open Scope N_scope.
 
 Theorem C02_free_is_layout_exact_and_once_partial : forall k sz s e s' e', free_buf k sz s e = OK tt s' e' ->
@@ -44,6 +44,8 @@ Proof. exact reach_no_ub. Qed.
 Example C02_invariant_nonvacuous : WF (hst0 false) /\ WF (hst0 true).
 Proof. split; apply wf0. Qed.
 
+(* side condition regenerated on every run (translator T7): the representation constants of the transliteration are those of the current source *)
+Lemma C02_gen_constants_match : consts_tie. Proof. exact consts_tie_holds. Qed.
 Print Assumptions C02_free_is_layout_exact_and_once_partial.
 Print Assumptions C02_read_inside_live_block_partial.
 Print Assumptions C02_write_inside_live_heap_block_partial.
@@ -51,3 +53,4 @@ Print Assumptions C02_double_free_is_ub.
 Print Assumptions C02_invariant_preserved.
 Print Assumptions C02_no_ub_reachable.
 Print Assumptions C02_invariant_nonvacuous.
+Print Assumptions C02_gen_constants_match.
